@@ -1189,6 +1189,14 @@ func accessibleFrom(info *types.Info, node ast.Node, dst *types.Package) error {
 			return true
 		}
 		obj := info.ObjectOf(ident)
+		if v, ok := obj.(*types.Var); ok && v.Embedded() {
+			// The identifier of an embedded field declares the field and
+			// refers to its type, which may come from a dot import: the copy
+			// names that type.
+			if use := info.Uses[ident]; use != nil {
+				obj = use
+			}
+		}
 		if pn, ok := obj.(*types.PkgName); ok {
 			// Local package names are fine, since we can just reimport them,
 			// unless the package is internal to another tree.
